@@ -38,7 +38,7 @@ thread_local! {
     static PREVIOUS_BOUNDARY: RefCell<Option<Vec<u8>>> = const { RefCell::new(None) };
 }
 
-const MIMES: &[&str] = &["text/plain", "image/png", "application/octet-stream", "text/plain; charset=utf-8", "application/vnd.api+json", "text/html; charset=ISO-8859-1", "application/x-custom; a=b; c=d"];
+const MIMES: &[&str] = &["text/plain", "image/png", "application/octet-stream", "text/plain; charset=utf-8", "application/vnd.api+json", "text/html; charset=ISO-8859-1", "application/x-custom; a=b; c=d", "application/x-thing; profile=CamelCase", "multipart/mixed; boundary=InnerBoundaryXyZ", "text/plain; charset=UTF-8; Format=Flowed"];
 
 struct TextField {
     name: String,
